@@ -631,6 +631,15 @@ func caseC08(c *Ctx) {
 	if op.FromRoot {
 		env.Tree = vforest[0]
 	}
+	if origin != "target-missing" && origin != "target-is-file" && c.Chance(1, 8) {
+		// the target given as "" with the process standing in the directory
+		if old, err := os.Getwd(); err == nil && os.Chdir(strings.TrimSuffix(target, "/")) == nil {
+			defer os.Chdir(old)
+			op.EmptyTarget = true
+			c.Scenario["target_given_as_empty_string"] = true
+			c.st.Count("empty-target-option")
+		}
+	}
 	var out *Outcome
 	if massive {
 		env.MaxSteps = 60000
@@ -682,7 +691,11 @@ func caseC08(c *Ctx) {
 		c.Failf("C08:nil-despite-difference:"+mode+":"+strictStr(op.Strict), "differences exist (%+v) but Verify returned nil", diffs)
 	}
 	c.st.Count("verdict:error")
-	extra, missing, ok := parseVerifyErr(out.Err.Error(), target)
+	ptarget := target
+	if op.EmptyTarget {
+		ptarget = "."
+	}
+	extra, missing, ok := parseVerifyErr(out.Err.Error(), ptarget)
 	if !ok {
 		c.Failf("C08:error-not-in-documented-form:"+mode, "%q", out.Err.Error())
 	}
